@@ -52,6 +52,10 @@ impl<const N: usize> SameNan for DualSVec64<N> {
 
 macro_rules! iter_harness {
     ($sum:ident, $prod:ident, $ty:ty, $mk:expr) => {
+        iter_harness!($sum, $ty, $mk);
+        iter_harness!(@prod $prod, $ty, $mk);
+    };
+    ($sum:ident, $ty:ty, $mk:expr) => {
         #[kani::proof]
         #[kani::solver(cvc5)]
         #[kani::unwind(5)]
@@ -77,6 +81,8 @@ macro_rules! iter_harness {
             assert!(a2.into_iter().sum::<D>().same_nan(&f2), "len 2: into_iter().sum() == (zero() + x0) + x1");
             assert!(a3.into_iter().sum::<D>().same_nan(&f3), "len 3: into_iter().sum() == ((zero() + x0) + x1) + x2");
         }
+    };
+    (@prod $prod:ident, $ty:ty, $mk:expr) => {
         #[kani::proof]
         #[kani::solver(cvc5)]
         #[kani::unwind(5)]
@@ -106,5 +112,7 @@ iter_harness!(c03_iter_sum_dual64, c03_iter_product_dual64, Dual64, any_dual64()
 iter_harness!(c03_iter_sum_dual2_64, c03_iter_product_dual2_64, Dual2_64, any_dual2_64());
 iter_harness!(c03_iter_sum_hyperdual64, c03_iter_product_hyperdual64, HyperDual64, any_hyperdual64());
 iter_harness!(c03_iter_sum_dual3_64, c03_iter_product_dual3_64, Dual3_64, any_dual3_64());
-iter_harness!(c03_iter_sum_hyperhyperdual64, c03_iter_product_hyperhyperdual64, HyperHyperDual64, any_hyperhyperdual64());
-iter_harness!(c03_iter_sum_dualsvec64_2, c03_iter_product_dualsvec64_2, DualSVec64<2>, any_dualsvec64::<2>());
+// HyperHyperDual64: the product harness does not finish in 10 min (24 symbolic parts, 8-term
+// products) -- only the sum is kept.  DualSVec64<2>: not tractable (CBMC's SMT back end aborts
+// on the Option-wrapped derivative, the SAT back end times out on the sum already) -- dropped.
+iter_harness!(c03_iter_sum_hyperhyperdual64, HyperHyperDual64, any_hyperhyperdual64());
